@@ -3,11 +3,10 @@ package vers
 import (
 	"fmt"
 	"strings"
+	"unicode"
 
 	"github.com/alowayed/go-univers/pkg/ecosystem/pypi"
 )
-
-// No regex needed - we can parse the version string more directly
 
 // pypiContains implements VERS constraint checking for PyPI ecosystem
 // with PEP 440 prerelease exclusion logic
@@ -20,70 +19,36 @@ func pypiContains(constraints []string, version string) (bool, error) {
 		return false, err
 	}
 
-	// Check if version is a prerelease (has prerelease or dev components)
-	isPrerelease := isPyPIPrerelease(v)
+	// Evaluate the range first, so that invalid ranges are reported as such
+	// whatever the version is
+	result, err := contains(e, constraints, version)
+	if err != nil {
+		return false, err
+	}
 
-	// If it's a prerelease, check if any constraint explicitly includes prereleases
-	if isPrerelease && !constraintsIncludePrerelease(constraints) {
+	// A prerelease is only contained if a constraint explicitly names a prerelease
+	if v.IsPrerelease() && !constraintsIncludePrerelease(e, constraints) {
 		return false, nil
 	}
 
-	return contains(e, constraints, version)
+	return result, nil
 }
 
-// constraintsIncludePrerelease checks if any constraint explicitly includes prerelease versions
-func constraintsIncludePrerelease(constraints []string) bool {
-	for _, constraint := range constraints {
-		// If constraint contains prerelease markers, then prereleases are explicitly allowed
-		if containsPrereleaseMarkers(constraint) {
+// constraintsIncludePrerelease checks if the version of any constraint is a prerelease
+func constraintsIncludePrerelease(e *pypi.Ecosystem, constraints []string) bool {
+	for _, c := range constraints {
+		// VERS spec: whitespace is not significant
+		c = strings.Map(func(r rune) rune {
+			if unicode.IsSpace(r) {
+				return -1
+			}
+			return r
+		}, c)
+		c = strings.TrimLeft(c, "<>=!")
+		if v, err := e.NewVersion(c); err == nil && v.IsPrerelease() {
 			return true
 		}
 	}
-	return false
-}
-
-// isPyPIPrerelease checks if a PyPI version has prerelease or dev components
-func isPyPIPrerelease(v *pypi.Version) bool {
-	// Since we can't access private fields directly, check the string representation
-	// But be careful to avoid false positives from local versions
-	vStr := v.String()
-
-	// Split on '+' to isolate the main version from local version identifier
-	parts := strings.Split(vStr, "+")
-	mainVersion := parts[0]
-
-	// Check for prerelease markers in the main version only
-	return containsPrereleaseMarkers(mainVersion)
-}
-
-// containsPrereleaseMarkers checks if a version string contains PEP 440 prerelease markers
-func containsPrereleaseMarkers(versionStr string) bool {
-	// PEP 440 prerelease markers can appear directly attached to version numbers
-	// e.g., "1.5.0b1", "1.5.0rc1", "1.5.0.dev1"
-
-	versionStr = strings.ToLower(versionStr)
-
-	// Define prerelease markers in order of length (longest first to avoid partial matches)
-	markers := []string{"alpha", "beta", "dev", "rc", "a", "b"}
-
-	for _, marker := range markers {
-		// Look for the marker in the version string
-		if idx := strings.Index(versionStr, marker); idx >= 0 {
-			// Check that marker is preceded by a digit or dot and followed by digits or end/+
-			if idx > 0 && (versionStr[idx-1] >= '0' && versionStr[idx-1] <= '9' || versionStr[idx-1] == '.') {
-				afterMarker := idx + len(marker)
-				if afterMarker >= len(versionStr) {
-					return true // marker at end
-				}
-				// Check what comes after the marker
-				next := versionStr[afterMarker]
-				if (next >= '0' && next <= '9') || next == '+' || next == '.' {
-					return true
-				}
-			}
-		}
-	}
-
 	return false
 }
 
